@@ -18,7 +18,7 @@ class C03(PipelineCheck):
             'distinct = distinct (program, resolved schedule) pairs among the non-trivial ones')
     assumptions = ['about one case in eight injects user-function failures (fault plan of C13) so that OnErrorMux crosses boundaries too; after on_error nothing is demanded',
                    'the class-level patch of MuxObservable.__init__ sees every multiplexed boundary']
-    probe_names = ('with_item_errors', 'inside_tee', 'nested_window', 'empty_source', 'stride_gt_window', 'window_gt_stream',
+    probe_names = ('cold_source_emitting_during_subscribe', 'with_item_errors', 'inside_tee', 'nested_window', 'empty_source', 'stride_gt_window', 'window_gt_stream',
                    'group_emptied_by_filter', 'labels>=12')
 
     def flags(self):
@@ -47,12 +47,13 @@ class C03(PipelineCheck):
         ts = find_nodes(program, lambda n: n['op'] == 'time_split')
         to = (ts[0].get('active'), ts[0].get('inactive')) if ts else (None, None)
         events, style = gen_events(rng, parties, maxev, style=None, timeouts=to, p_close=0.2 if ts else 0.0)
-        return {'program': program, 'events': events, 'end': 'complete', 'style': style}
+        return {'program': program, 'events': events, 'end': 'complete', 'style': style,
+                'driver': 'cold' if rng.random() < 0.15 else 'hot'}
 
     def execute(self, case):
         out = Outcome()
         ctx, final, escaped = run_mux(case['program'], case['events'], case['end'], monitor=True, notaps=True,
-                                      fail=case.get('faults'))
+                                      fail=case.get('faults'), driver=case.get('driver', 'hot'))
         for site, n in ctx.fired.items():
             out.faults['user_function_raised'] += n
         for label, what, key, seq in ctx.breaches:
@@ -78,6 +79,8 @@ class C03(PipelineCheck):
             out.nontrivial = False
         if ctx.fired:
             p['with_item_errors'] += 1
+        if case.get('driver') == 'cold':
+            p['cold_source_emitting_during_subscribe'] += 1
         if 'tee_map' in ops:
             p['inside_tee'] += 1
         if depth_of(case['program']) >= 3:
